@@ -19,12 +19,41 @@ def _chain(n):
     return n, out
 
 
-def _pred_callees(closure):
-    """names of the predicates called on the element inside a take_while/position closure"""
+_PRED_CTX = {"prog": None, "fn": None}
+
+
+def _pred_callees(closure, depth=0):
+    """names of the predicates called on the element inside a take_while/position closure; a call of
+    a function-typed *parameter* of the enclosing helper is resolved at the helper's call sites"""
     names = set()
+    prog, fn = _PRED_CTX["prog"], _PRED_CTX["fn"]
     for x in hir.walk(hir.peel(closure)["body"]):
-        if hir.is_call(x):
-            names.add(hir.callee_name(x) or x.get("method"))
+        if not hir.is_call(x):
+            continue
+        nm = hir.callee_name(x) or x.get("method")
+        if nm is None and x.get("k") == "Call" and prog is not None and fn is not None and depth < 2:
+            l = hir.local_of(x["f"])
+            b = fn.bindings().get(l[0]) if l else None
+            if b and b["origin"][0] == "param":
+                pi = b["origin"][1]
+                found = False
+                for caller, cn in prog.sites_calling(fn):
+                    if not hir.is_call(cn) or pi >= len(hir.call_args(cn)):
+                        continue
+                    a = hir.peel(hir.call_args(cn)[pi])
+                    found = True
+                    if a.get("k") == "Closure":
+                        save = dict(_PRED_CTX)
+                        _PRED_CTX["fn"] = caller
+                        names |= _pred_callees(a, depth + 1)
+                        _PRED_CTX.update(save)
+                    elif a.get("k") == "Path" and (a["res"].get("path") or hir.def_path_of(a) or ""):
+                        names.add((a["res"].get("path") or hir.def_path_of(a)).split("::")[-1])
+                    else:
+                        names.add(None)
+                if found:
+                    continue
+        names.add(nm)
     return names
 
 
@@ -43,13 +72,17 @@ def run(check):
     have = {(f.def_path, n["id"]) for f, n in sites}
     sites += [(f, n) for f, n in tracked_inserts if (f.def_path, n["id"]) not in have]
     if not writes:  # vacuity guard; when LIST-WRITES already names the offending writes it adds nothing
-        check.floor(R, "statement-list write sites", len(sites), 3)
+        check.floor(R, "statement-list write sites", len(sites), 1)
     preds_seen = {}
+    _PRED_CTX["prog"] = prog
     for f, n in sites:
+        _PRED_CTX["fn"] = f
         recv_place = hir.place(n["recv"]) or "?"
         role = "%s/%s" % (f.name, recv_place.split(".")[-1] + ("@" + _variant(f, n) if _variant(f, n) else ""))
         key = "%s/%s" % (R, role)
         idx = n["args"][0]
+        if n["method"] == "splice":
+            idx = _empty_range(idx)
         os_ = pv.origins(f, idx)
         bad = []
         good = []
@@ -206,6 +239,10 @@ def _list_writes(check, prog):
                 n_uses += 1
                 if m == "insert":
                     inserts.append((f, par))
+                if m == "splice" and _empty_range(par["args"][0]) is not None:
+                    # splice(i..i, items) removes nothing: an insertion of several statements at i
+                    inserts.append((f, par))
+                    continue
                 if m in READS or m in TRAVERSALS or m == "insert":
                     continue
                 bad.append((f, par, "%s/%s" % (f.name, m), "statement list %s is changed by .%s(..), not by an insertion at the prologue index" % (_strip(what), m)))
@@ -236,6 +273,17 @@ def _list_writes(check, prog):
     if not bad:
         check.ok(R, R + "/inventory", "-", "%d uses of statement lists: reads, visitor traversals and Vec::insert only" % n_uses)
     return bad, inserts
+
+
+def _empty_range(e):
+    """the index expression i of a range literal `i..i`, else None"""
+    e = hir.peel(e)
+    if e.get("k") == "Struct" and (e["res"].get("path") or "").endswith("ops::Range"):
+        fl = {x["name"]: hir.peel(x["e"]) for x in e["fields"]}
+        a, b = fl.get("start"), fl.get("end")
+        if a is not None and b is not None and hir.local_of(a) and hir.local_of(a) == hir.local_of(b):
+            return a
+    return None
 
 
 def _strip(s):
